@@ -65,11 +65,52 @@ func drawC13cfg(c *Ctx, base run.Env) c13cfg {
 	return g
 }
 
-func c13Drive(c *Ctx, w *world.World, env run.Env, emptyAt, flushAt int, stub, tcOff bool) *run.Transcript {
+// ownText is what the documentation of idr.Node.InnerText says it returns - the texts below the
+// node concatenated in document order, attribute nodes left out - computed from the links alone.
+func ownText(n *idr.Node) string {
+	if n.Type == idr.TextNode {
+		return n.Data
+	}
+	s := ""
+	for ch := n.FirstChild; ch != nil; ch = ch.NextSibling {
+		if ch.Type != idr.AttributeNode {
+			s += ownText(ch)
+		}
+	}
+	return s
+}
+
+// c13TextProbe: after every delivered record the text of one node - the record or its ancestor
+// `level` steps up, the same one for the whole run - is asked for through the node's public accessor
+// and compared with the text the tree holds at that moment. The ancestors of a record live as long
+// as the stream and change with every record; whatever the accessor keeps must not show. (Only one
+// level per run is asked: asking every level would itself refresh whatever is kept at each.)
+type c13TextProbe struct {
+	level    int
+	mismatch string
+}
+
+func (p *c13TextProbe) look(i int, n *idr.Node) {
+	if p == nil || p.level < 0 || p.mismatch != "" || n == nil {
+		return
+	}
+	a := n
+	for k := 0; k < p.level && a.Parent != nil; k++ {
+		a = a.Parent
+	}
+	if got, want := a.InnerText(), ownText(a); got != want {
+		p.mismatch = fmt.Sprintf("after record #%d: InnerText() of the node %d level(s) above the record (%q) says %q, the tree holds %q", i+1, p.level, a.Data, clipS(got, 200), clipS(want, 200))
+	}
+}
+
+func c13Drive(c *Ctx, w *world.World, env run.Env, emptyAt, flushAt int, stub, tcOff bool, probe ...*c13TextProbe) *run.Transcript {
 	env.Apply()
 	rd := simio.NewReader(w.Input, simio.Whole(len(w.Input)))
 	delivered := 0
-	opts := run.Opts{OnRecord: func(int, *idr.Node) {
+	opts := run.Opts{OnRecord: func(i int, n *idr.Node) {
+		for _, p := range probe {
+			p.look(i, n)
+		}
 		delivered++
 		if delivered == emptyAt {
 			run.EmptyPools()
@@ -121,8 +162,26 @@ func runC13(c *Ctx) []Violation {
 	cfg := drawC13cfg(c, base)
 	c.Note("world %s; reference env %s", w.Name, base)
 	c.Note("configuration under test: %v (%s)", cfg.describe, cfg.env)
-	ref := c13Drive(c, w, base, -1, -1, cfg.tcOff, false)
-	got := c13Drive(c, w, cfg.env, cfg.emptyAt, cfg.flushAt, cfg.tcOff, cfg.tcOff)
+	// (the same node is looked at in both runs, so the look itself cannot make them differ)
+	tp1 := &c13TextProbe{level: c.T.Intn("c13.textprobe.level", 5) - 1}
+	tp2 := &c13TextProbe{level: tp1.level}
+	ref := c13Drive(c, w, base, -1, -1, cfg.tcOff, false, tp1)
+	got := c13Drive(c, w, cfg.env, cfg.emptyAt, cfg.flushAt, cfg.tcOff, cfg.tcOff, tp2)
+	if tp1.level >= 0 {
+		c.Count("node-text-probe.level-"+fmt.Sprint(tp1.level), 1)
+	}
+	for _, tp := range []*c13TextProbe{tp1, tp2} {
+		if tp.mismatch != "" {
+			v := viol("C13.node-text", w.Format+": what a node's accessor keeps shows: "+tp.mismatch, "world: "+w.Name)
+			if len(w.Schema) < 8000 {
+				v.Detail = append(v.Detail, "schema: "+string(w.Schema))
+			}
+			if len(w.Input) < 3000 {
+				v.Detail = append(v.Detail, fmt.Sprintf("input: %q", string(w.Input)))
+			}
+			return []Violation{v}
+		}
+	}
 	rk, gk := ref.Keys(), got.Keys()
 	c.Ev("c13", cfg.describe, rk, gk)
 	for _, s := range cfg.describe {
